@@ -38,6 +38,8 @@ type FuncSpec struct {
 	Verify    bool // verify body
 	NilStrict bool
 	HoldsAtEntry []string
+	sawStar   bool
+	Lets      map[string]ast.Expr // abbreviations usable in the clauses of this block
 	PreservesHeld bool // the callee does not write state guarded by locks the caller holds (no re-entry into the monitor)
 	EntrySets []*GhostSet // ghost assignments that happen when the function is called (definitional)
 	Events    []Clause // ghost counters that calling this function increments (the call itself is the event)
@@ -354,10 +356,15 @@ func (sp *Specs) parseFile(path string, extern bool) error {
 						}
 					}
 				}
+				// an explicit modifies clause is complete: the real heap may change only where listed ('*' = anywhere)
+				_ = real
 				if star {
 					curF.ModAll = true
-				} else if real {
+				} else if !curF.sawStar {
 					curF.ModAll = false
+				}
+				if star {
+					curF.sawStar = true
 				}
 				continue
 			}
@@ -434,6 +441,22 @@ func (sp *Specs) parseFile(path string, extern bool) error {
 				gs.Exprs = append(gs.Exprs, e)
 			}
 			curF.GhostSets = append(curF.GhostSets, gs)
+		case "let":
+			if curF == nil {
+				return fail(fmt.Errorf("let outside func block"))
+			}
+			eq := indexTop(rest, "=")
+			if eq < 0 {
+				return fail(fmt.Errorf("let name = expr"))
+			}
+			e, err := parseSpecExpr(strings.TrimSpace(rest[eq+1:]))
+			if err != nil {
+				return fail(err)
+			}
+			if curF.Lets == nil {
+				curF.Lets = map[string]ast.Expr{}
+			}
+			curF.Lets[strings.TrimSpace(rest[:eq])] = e
 		case "preserves-held":
 			if curF != nil {
 				curF.PreservesHeld = true
